@@ -450,6 +450,13 @@ def inlined_current(repo, f, node=None):
             return None
         g.node._key = '%s:%s' % (g.rel, g.qualname)
         g.node._bound_self = None
+        if g.cls is None and {getattr(d, 'id', getattr(d, 'attr', None)) for d in g.node.decorator_list} == {'contextmanager'}:
+            plain = clone(g.node)
+            plain.decorator_list = []
+            plain._key = g.node._key
+            plain._bound_self = None
+            plain._contextmanager = True
+            return plain
         if g.cls is not None:
             deco = {getattr(d, 'id', getattr(d, 'attr', None)) for d in g.node.decorator_list}
             if deco == {'staticmethod'}:
@@ -486,7 +493,9 @@ def localise_new_module_defs(repo, f, node):
     for x in ast.walk(node):
         if isinstance(x, ast.Name) and isinstance(x.ctx, ast.Load) and x.id in f.module.assigns and x.id not in ref_names and x.id not in local \
                 and x.id not in used and normal._pure_expr(f.module.assigns[x.id]) \
-                and not isinstance(f.module.assigns[x.id], (ast.Dict, ast.Set)):        # tables are read by the loop unroller where they are
+                and not isinstance(f.module.assigns[x.id], (ast.Dict, ast.Set)) \
+                and not (isinstance(f.module.assigns[x.id], (ast.Tuple, ast.List)) and isinstance(getattr(x, '_parent', None), ast.For)
+                         and x._parent.iter is x):        # tables are read by the loop unroller where they are
             used.append(x.id)
     # definitions may refer to one another
     order = []
@@ -541,6 +550,7 @@ def _substitute_reference(repo, f, entry):
         consts = module_consts(repo, f)
         cur = inlined_current(repo, f)
         if normal.nf_key(cur, info, consts) != normal.nf_key(rnode, info, consts):
+            cur = normal.plain_argument_temps(cur)
             cur = localise_new_module_defs(repo, f, cur)
             if cur is not f.node:
                 # not a pure respelling, but a block of it now lives in a helper the reference does not have: the rules look at the
